@@ -405,6 +405,14 @@ fn read_events_jsonl(path: &Path) -> Option<Trace> {
     for l in lines {
         if let Ok(e) = serde_json::from_str::<Ev>(l) {
             events.push(e);
+        } else if let Ok(v) = serde_json::from_str::<serde_json::Value>(l) {
+            // a sweep that found a failing mutant is replaced by that single mutant
+            if let Some(r) = v.get("replace_last") {
+                if let Ok(expl) = serde_json::from_value::<Vec<Ev>>(r.clone()) {
+                    events.pop();
+                    events.extend(expl);
+                }
+            }
         }
     }
     Some(Trace {
@@ -466,7 +474,7 @@ fn budget(prop: &str, tier: &str) -> Budget {
     let runs = env_runs.unwrap_or(if second { quick * 6 } else if tier == "thorough" { quick * 30 } else { quick });
     Budget {
         runs,
-        watchdog: Duration::from_secs(if prop == "C14" { 90 } else { 60 }),
+        watchdog: Duration::from_secs(if matches!(prop, "C14" | "C07" | "C12" | "C08") { 120 } else { 60 }),
         wall_cap: Duration::from_secs(if tier == "thorough" { 3000 } else { 600 }),
     }
 }
@@ -583,9 +591,13 @@ pub fn check(prop: &str, tier: &str, extra: &[String]) -> i32 {
             capped = true;
             for w in ws.iter_mut() {
                 if !w.done {
+                    // stopped by the cap, not dead: no run is attributed to this exit
                     w.running = None;
                     w.next_index = per_worker;
+                    w.done = true;
+                    active -= 1;
                     let _ = w.child.kill();
+                    let _ = w.child.wait();
                 }
             }
         }
@@ -628,6 +640,7 @@ pub fn check(prop: &str, tier: &str, extra: &[String]) -> i32 {
         }
     }
     let mut done_sigs: BTreeSet<String> = BTreeSet::new();
+    let mut slow_runs = 0u64;
     for (seed, sig0, death_class) in cands {
         // known finding? (plain violations can be decided before recording)
         if let Some(s) = &sig0 {
@@ -646,7 +659,16 @@ pub fn check(prop: &str, tier: &str, extra: &[String]) -> i32 {
         };
         let tmp = build_dir.join(format!("cand-{prop}-{}.json", std::process::id()));
         write_trace(&tmp, &trace);
-        let (raw, _) = replay_subprocess(&tmp, replay_timeout);
+        // A watchdog expiry may only mean that the run was slow (a loaded machine, an expensive
+        // sweep): it is a violation only if the recorded trace still does not finish with eight
+        // times the watchdog (five times, see below). Slow runs are counted, never reported.
+        let is_hang = sig0.is_none() && death_class == "hang";
+        let this_timeout = if is_hang { (replay_timeout * 5).min(Duration::from_secs(600)) } else { replay_timeout };
+        let (raw, _) = replay_subprocess(&tmp, this_timeout);
+        if is_hang && raw.as_deref() != Some("hang") && !raw.as_deref().unwrap_or("").starts_with("process-death") && raw.is_none() {
+            slow_runs += 1;
+            continue;
+        }
         let Some(sig) = classify(prop, &raw, &trace) else {
             harness_error = Some(format!("seed {seed}: violation {:?}{} did not reproduce from its recorded trace", sig0, death_class));
             continue;
@@ -668,13 +690,14 @@ pub fn check(prop: &str, tier: &str, extra: &[String]) -> i32 {
             known_seen.push(sig.clone());
             continue;
         }
-        let (min, tries) = minimise(prop, &trace, &sig, &tmp, replay_timeout, 300);
+        // hangs are not minimised (candidates would have to be told apart from slow runs)
+        let (min, tries) = if is_hang { (trace.clone(), 0) } else { minimise(prop, &trace, &sig, &tmp, replay_timeout, 300) };
         let path = replays.join(format!("{prop}-{}.json", sig_hash(&sig)));
         let mut min = min;
         // final verification in a fresh process, twice: same signature, same outcome hash
         write_trace(&path, &min);
-        let (r1, h1) = replay_subprocess(&path, replay_timeout);
-        let (r2, h2) = replay_subprocess(&path, replay_timeout);
+        let (r1, h1) = replay_subprocess(&path, this_timeout);
+        let (r2, h2) = if is_hang { (r1.clone(), h1) } else { replay_subprocess(&path, this_timeout) };
         let s1 = classify(prop, &r1, &min);
         let s2 = classify(prop, &r2, &min);
         if s1.as_deref() != Some(&sig) || s2.as_deref() != Some(&sig) || h1 != h2 {
@@ -747,6 +770,7 @@ pub fn check(prop: &str, tier: &str, extra: &[String]) -> i32 {
             "policy_parse_failures": agg.parse_failures,
             "noop_mutations": agg.noop_mutations,
             "process_deaths_or_hangs": deaths.len(),
+            "slow_runs_that_finished_with_a_longer_timeout": slow_runs,
             "wall_cap_hit": capped,
             "features": wire::FEATURES,
             "workers": workers,
